@@ -453,6 +453,17 @@ func groupStream(stream []*ir.Term) ([]*ir.Term, error) {
 				i++
 				continue
 			}
+			// constant text in front of Sprintf(format, ...) is Sprintf(text+format, ...) ("/" + e.String())
+			if i+1 < len(merged) && isCallOf(merged[i+1], "fmt.Sprintf") && len(merged[i+1].Args) >= 1 && isStrConstTerm(merged[i+1].Args[0]) {
+				sp := merged[i+1]
+				pre := strings.ReplaceAll(constant.StringVal(t.C), "%", "%%")
+				args := append([]*ir.Term{ir.Const(constant.MakeString(pre+constant.StringVal(sp.Args[0].C)), types.Typ[types.String])}, sp.Args[1:]...)
+				p := ir.Rebuild(sp, args)
+				p.Pos = sp.Pos
+				out = append(out, p)
+				i++
+				continue
+			}
 			return nil, fmt.Errorf("constant text %s is written that is not the name part of an emission", t.Pretty())
 		}
 		out = append(out, t)
